@@ -281,11 +281,13 @@ pub const OVERLAP_COMPOUND: u16 = 0x0400;
 pub const SCALED_COMPONENT_OFFSET: u16 = 0x0800;
 pub const UNSCALED_COMPONENT_OFFSET: u16 = 0x1000;
 /// flag bits whose value follows from the rest of the component record
-pub const STRUCTURAL: u16 = ARG_1_AND_2_ARE_WORDS | ARGS_ARE_XY_VALUES | WE_HAVE_A_SCALE | MORE_COMPONENTS | WE_HAVE_AN_X_AND_Y_SCALE | WE_HAVE_A_TWO_BY_TWO | WE_HAVE_INSTRUCTIONS;
+/// (WE_HAVE_INSTRUCTIONS is *not* structural: which components carry it is the font's choice, see `Glyph::Composite`)
+pub const STRUCTURAL: u16 = ARG_1_AND_2_ARE_WORDS | ARGS_ARE_XY_VALUES | WE_HAVE_A_SCALE | MORE_COMPONENTS | WE_HAVE_AN_X_AND_Y_SCALE | WE_HAVE_A_TWO_BY_TWO;
 
 #[derive(Clone, Debug, PartialEq, Eq)]
 pub struct Component {
-    /// the non-structural flag bits (ROUND_XY_TO_GRID, USE_MY_METRICS, OVERLAP_COMPOUND, (UN)SCALED_COMPONENT_OFFSET)
+    /// the non-structural flag bits (ROUND_XY_TO_GRID, USE_MY_METRICS, OVERLAP_COMPOUND, (UN)SCALED_COMPONENT_OFFSET and
+    /// WE_HAVE_INSTRUCTIONS)
     pub extra_flags: u16,
     pub gid: u16,
     pub args: Args,
@@ -299,7 +301,9 @@ pub type BBox = [i16; 4];
 pub enum Glyph {
     Empty,
     Simple { bbox: BBox, contours: Vec<Vec<Pt>>, instr: Vec<u8>, overlap: bool },
-    /// `instr`: Some(..) <=> WE_HAVE_INSTRUCTIONS is set (on the last component)
+    /// `instr`: Some(..) <=> at least one component carries WE_HAVE_INSTRUCTIONS in its `extra_flags` (OpenType: the
+    /// instructions follow the last component; WOFF2 5.1: "if any of the components has WE_HAVE_INSTRUCTIONS").
+    /// Which components carry the bit is part of the model and has to survive. Use `Glyph::composite` to build one.
     Composite { bbox: BBox, comps: Vec<Component>, instr: Option<Vec<u8>> },
 }
 
@@ -320,6 +324,21 @@ impl Glyph {
     pub fn simple(contours: Vec<Vec<Pt>>, instr: Vec<u8>) -> Glyph {
         let bbox = tight_bbox(&contours);
         Glyph::Simple { bbox, contours, instr, overlap: false }
+    }
+    /// A composite glyph; when `instr` is given and no component carries WE_HAVE_INSTRUCTIONS yet, the bit is set on
+    /// the last component (the usual placement).
+    pub fn composite(bbox: BBox, mut comps: Vec<Component>, instr: Option<Vec<u8>>) -> Glyph {
+        if instr.is_some() && !comps.iter().any(|c| c.extra_flags & WE_HAVE_INSTRUCTIONS != 0) {
+            comps.last_mut().expect("composite without components").extra_flags |= WE_HAVE_INSTRUCTIONS;
+        }
+        let g = Glyph::Composite { bbox, comps, instr };
+        g.check_composite();
+        g
+    }
+    fn check_composite(&self) {
+        if let Glyph::Composite { comps, instr, .. } = self {
+            assert_eq!(instr.is_some(), comps.iter().any(|c| c.extra_flags & WE_HAVE_INSTRUCTIONS != 0), "model composite: instructions <=> some component has WE_HAVE_INSTRUCTIONS");
+        }
     }
     pub fn bbox(&self) -> Option<BBox> {
         match self {
@@ -346,7 +365,7 @@ impl Glyph {
     }
 }
 
-fn component_flags(c: &Component, more: bool, instr: bool) -> u16 {
+fn component_flags(c: &Component, more: bool) -> u16 {
     let mut f = c.extra_flags & !STRUCTURAL;
     match c.args {
         Args::Xy8(..) => f |= ARGS_ARE_XY_VALUES,
@@ -363,18 +382,15 @@ fn component_flags(c: &Component, more: bool, instr: bool) -> u16 {
     if more {
         f |= MORE_COMPONENTS;
     }
-    if instr {
-        f |= WE_HAVE_INSTRUCTIONS;
-    }
     f
 }
 
 /// Component records exactly as they appear both in `glyf` and in the WOFF2 composite stream.
-pub fn components_bytes(comps: &[Component], have_instr: bool) -> Vec<u8> {
+pub fn components_bytes(comps: &[Component]) -> Vec<u8> {
     let mut w = W::new();
     for (i, c) in comps.iter().enumerate() {
         let last = i + 1 == comps.len();
-        w.u16(component_flags(c, !last, last && have_instr));
+        w.u16(component_flags(c, !last));
         w.u16(c.gid);
         match c.args {
             Args::Xy8(a, b) => {
@@ -488,7 +504,8 @@ pub fn glyph_to_ttf(g: &Glyph) -> Vec<u8> {
             for v in bbox {
                 w.i16(*v);
             }
-            w.bytes(&components_bytes(comps, instr.is_some()));
+            g.check_composite();
+            w.bytes(&components_bytes(comps));
             if let Some(ins) = instr {
                 w.u16(ins.len() as u16);
                 w.bytes(ins);
@@ -727,7 +744,8 @@ pub fn transform_glyf(glyphs: &[Glyph], ch: &GlyfChoices) -> (Vec<u8>, Vec<bool>
             }
             Glyph::Composite { bbox, comps, instr } => {
                 ncontour.i16(-1);
-                composite.bytes(&components_bytes(comps, instr.is_some()));
+                g.check_composite();
+                composite.bytes(&components_bytes(comps));
                 if let Some(ins) = instr {
                     write_255(&mut glyph_stream, ins.len() as u16, ch.u255);
                     instr_stream.extend_from_slice(ins);
@@ -1013,10 +1031,23 @@ mod tests {
             bbox: [1, 2, 3, 4],
             comps: vec![
                 Component { extra_flags: ROUND_XY_TO_GRID, gid: 1, args: Args::Xy8(-3, 4), scale: Scale::None },
-                Component { extra_flags: USE_MY_METRICS, gid: 2, args: Args::Pt16(300, 2), scale: Scale::Four([1, 2, 3, 4]) },
+                Component { extra_flags: USE_MY_METRICS | WE_HAVE_INSTRUCTIONS, gid: 2, args: Args::Pt16(300, 2), scale: Scale::Four([1, 2, 3, 4]) },
             ],
             instr: Some(vec![7]),
         };
         assert_eq!(parse_glyph(&glyph_to_ttf(&c)), Ok(c));
+        // the flag on the first component only: instructions still follow the last component
+        let d = Glyph::Composite {
+            bbox: [1, 2, 3, 4],
+            comps: vec![
+                Component { extra_flags: WE_HAVE_INSTRUCTIONS, gid: 1, args: Args::Xy8(0, 0), scale: Scale::None },
+                Component { extra_flags: 0, gid: 2, args: Args::Xy8(1, 1), scale: Scale::None },
+            ],
+            instr: Some(vec![9, 9]),
+        };
+        let b = glyph_to_ttf(&d);
+        assert_eq!(&b[10..12], &[0x01, 0x22]); // WE_HAVE_INSTRUCTIONS | MORE_COMPONENTS | ARGS_ARE_XY_VALUES
+        assert_eq!(&b[16..18], &[0x00, 0x02]);
+        assert_eq!(parse_glyph(&b), Ok(d));
     }
 }
